@@ -1,4 +1,925 @@
-//! c14 check (under construction)
+//! C14 — SCMP handling: bounded quoting, valid checksums, faithful echo, no error loops.
+//!
+//! Bounded-exhaustive enumeration (engine E1) over the real encoders, builders and handlers:
+//!  (a) every error kind x every offending-packet length x a series of reply header sizes -> the
+//!      real `ScionScmpPacket` encoder, judged by R-wire (length <= 1232, quote is a maximal prefix,
+//!      truthful lengths, checksum verifies, decodes back);
+//!  (b) the same through the builders: snap gateway ingress rejection, pocketscion local simulator;
+//!  (c) echo: every request (id, seq, data length, path shape and position) -> the real
+//!      `DefaultEchoHandler` and pocketscion `handle_scmp`, judged against R-wire's path reversal;
+//!  (d) no reply: every SCMP type byte x code x truncation x checksum -> every handler/builder;
+//!  (e) socket loop: every ordering with repetition (<= 4 items) of {SCMP error, datagrams, malformed
+//!      SCMP, echo request, unknown next-header, unknown error type} through the real
+//!      `PathUnawareUdpScionSocket` over a scripted underlay.
+use std::{
+    net::{IpAddr, Ipv4Addr, Ipv6Addr, SocketAddr},
+    sync::{Arc, Mutex},
+};
+
+use pocketscion::network::{
+    local::{
+        external_as_registry::ExternalAsRegistry, receiver_registry::NetworkReceiverRegistry,
+        receivers::Receiver, simulator::LocalNetworkSimulation,
+    },
+    scion::{routing::LocalAsRoutingAction, topology::ScionRouter},
+};
+use rayon::prelude::*;
+use scion_stack::stack::{
+    scmp_handler::{DefaultEchoHandler, ScmpErrorReceiver, ScmpHandler},
+    verif_socket::scripted_udp_socket,
+};
+use sciparse::{
+    address::{addr::ScionAddr, host_addr::ScionHostAddr, ip_socket_addr::ScionSocketIpAddr},
+    core::{encode::WireEncode, view::View},
+    dataplane_path::{
+        model::DpPath,
+        standard::{
+            model::{HopField, InfoField, Segment, StandardPath},
+            types::{HopFieldFlags, HopFieldMac, InfoFieldFlags},
+        },
+        view::ScionDpPathViewRef,
+    },
+    identifier::isd_asn::IsdAsn,
+    packet::{
+        model::{ScionRawPacketRef, ScionScmpPacket},
+        view::ScionRawPacketView,
+    },
+    payload::scmp::{
+        model::{
+            ScmpDestinationUnreachable, ScmpEchoRequest, ScmpErrorMessage, ScmpExternalInterfaceDown, ScmpInternalConnectivityDown, ScmpMessage, ScmpPacketTooBig,
+            ScmpParameterProblem,
+        },
+        types::{ScmpDestinationUnreachableCode, ScmpParameterProblemCode},
+    },
+};
+use snap_dataplane::tunnel_gateway::verif::{IngressVerdict, ingress};
+use vpc::{
+    Run, Tier, Value, catch, hex, json,
+    refwire::{self, PROTO_SCMP, PROTO_UDP, RHeader, RHop, RInfo, RPath, RStdPath},
+};
+
+const MAX_SCMP: usize = 1232;
+
+fn ia(s: &str) -> IsdAsn {
+    s.parse().unwrap()
+}
+
+/// Deterministic, position-revealing filler for offending packets and payloads.
+fn pattern(n: usize, salt: u8) -> Vec<u8> {
+    (0..n).map(|i| (i as u32).wrapping_mul(7).wrapping_add(3 + salt as u32) as u8 ^ (i >> 8) as u8).collect()
+}
+
+/// A standard path model with the given segment shape; interface ids/MACs distinct per hop.
+fn std_path(shape: &[usize], curr_inf: u8, curr_hf: u8, cons: [bool; 3]) -> StandardPath {
+    let mut segs = tinyvec::ArrayVec::<[Segment; 3]>::new();
+    let mut k = 0u16;
+    for (si, n) in shape.iter().enumerate() {
+        let mut hops = tinyvec::TinyVec::<[HopField; 12]>::new();
+        for _ in 0..*n {
+            k += 1;
+            let mut mac = [0u8; 6];
+            for (j, b) in mac.iter_mut().enumerate() {
+                *b = (k as u8).wrapping_mul(13).wrapping_add(j as u8);
+            }
+            hops.push(HopField { flags: HopFieldFlags::empty(), expiration_units: 63, cons_ingress: 100 + k, cons_egress: 200 + k, mac: HopFieldMac(mac) });
+        }
+        segs.push(Segment {
+            info_field: InfoField { flags: if cons[si] { InfoFieldFlags::CONS_DIR } else { InfoFieldFlags::empty() }, segment_id: 0x1000 + si as u16, timestamp: 1_700_000_000 + si as u32 },
+            hop_fields: hops,
+        });
+    }
+    StandardPath { current_info_field: curr_inf, current_hop_field: curr_hf, segments: segs }
+}
+
+fn v4(a: u8) -> ScionHostAddr {
+    ScionHostAddr::V4(Ipv4Addr::new(10, 0, a, 1))
+}
+fn v6(a: u8) -> ScionHostAddr {
+    ScionHostAddr::V6(Ipv6Addr::new(0x2001, 0xdb8, 0, 0, 0, 0, a as u16, 1))
+}
+
+/// Header configurations giving a series of distinct header sizes.
+fn header_configs(tier: Tier) -> Vec<(ScionAddr, ScionAddr, DpPath, String)> {
+    let mut v: Vec<(ScionAddr, ScionAddr, DpPath, String)> = vec![];
+    let (a, b) = (ia("1-ff00:0:110"), ia("2-ff00:0:220"));
+    let addr_combos: Vec<(ScionHostAddr, ScionHostAddr, &str)> = vec![(v4(1), v4(2), "v4/v4"), (v6(1), v4(2), "v6/v4"), (v6(1), v6(2), "v6/v6")];
+    let mut shapes: Vec<Vec<usize>> = vec![];
+    let hop_counts: Vec<usize> = match tier {
+        Tier::Quick => vec![1, 2, 5, 12, 24, 40, 63],
+        Tier::Thorough => (1..=63).collect(),
+    };
+    for h in &hop_counts {
+        shapes.push(vec![*h]);
+    }
+    for h in match tier {
+        Tier::Quick => vec![(2usize, 2usize, 2usize), (12, 12, 12), (20, 30, 27)],
+        Tier::Thorough => vec![(1, 1, 1), (2, 2, 2), (5, 6, 7), (12, 12, 12), (20, 20, 20), (20, 30, 27), (26, 26, 26)],
+    } {
+        shapes.push(vec![h.0, h.1]);
+        shapes.push(vec![h.0, h.1, h.2]);
+    }
+    for (s, d, name) in &addr_combos {
+        v.push((ScionAddr::new(a, *s), ScionAddr::new(b, *d), DpPath::Empty, format!("{name} empty")));
+        for sh in &shapes {
+            let total: usize = sh.iter().sum();
+            // the pointer position does not influence the header size; keep it at 0 (CurrHF >= 64 is a C03 matter)
+            let p = std_path(sh, 0, 0, [true, false, true]);
+            // only keep shapes the header can hold (<= 1020 bytes)
+            let hdr = 12 + 16 + 4 + 8 * sh.len() + 12 * total + if *name == "v4/v4" { 8 } else if *name == "v6/v4" { 20 } else { 32 };
+            if hdr <= 1020 {
+                v.push((ScionAddr::new(a, *s), ScionAddr::new(b, *d), DpPath::Standard(p), format!("{name} std{sh:?}")));
+            }
+        }
+    }
+    v
+}
+
+fn error_kinds(offending: Vec<u8>) -> Vec<(u8, usize, ScmpMessage)> {
+    vec![
+        (1, 8, ScmpDestinationUnreachable::new(ScmpDestinationUnreachableCode::AddressUnreachable, offending.clone()).into()),
+        (2, 8, ScmpPacketTooBig::new(1400, offending.clone()).into()),
+        (4, 8, ScmpParameterProblem::new(ScmpParameterProblemCode::InvalidCommonHeader, 7, offending.clone()).into()),
+        (5, 20, ScmpExternalInterfaceDown::new(ia("1-ff00:0:111"), 42, offending.clone()).into()),
+        (6, 28, ScmpInternalConnectivityDown::new(ia("1-ff00:0:111"), 42, 43, offending).into()),
+    ]
+}
+
+/// Oracle for an encoded SCMP *error* packet: <= 1232 bytes, truthful lengths, quote is a maximal
+/// prefix of `offending`, checksum verifies. Returns the parsed header on success.
+fn judge_error_packet(run: &Run, ctx: &str, bytes: &[u8], offending: &[u8], expect_type: Option<u8>, witness: &dyn Fn() -> Value) -> Option<RHeader> {
+    let (h, hl) = match RHeader::parse(bytes) {
+        Ok(x) => x,
+        Err(e) => {
+            run.violation(&format!("{ctx}:scmp-error-packet-unparseable-by-spec-reader:{e}"), "an SCMP error packet built by the SDK does not parse with the independent SCION header reader", witness());
+            return None;
+        }
+    };
+    if bytes.len() > MAX_SCMP {
+        run.violation(&format!("{ctx}:scmp-error-longer-than-1232"), &format!("SCMP error packet is {} bytes", bytes.len()), witness());
+    }
+    if h.next_hdr != PROTO_SCMP {
+        run.violation(&format!("{ctx}:scmp-error-wrong-next-header"), "next header is not SCMP", witness());
+        return Some(h);
+    }
+    let l4 = &bytes[hl..];
+    if h.payload_len as usize != l4.len() {
+        run.violation(&format!("{ctx}:scmp-error-payload-len-untruthful"), &format!("PayloadLen {} but {} bytes follow the header", h.payload_len, l4.len()), witness());
+    }
+    if l4.len() < 4 {
+        run.violation(&format!("{ctx}:scmp-error-l4-too-short"), "SCMP message shorter than 4 bytes", witness());
+        return Some(h);
+    }
+    let ty = l4[0];
+    if let Some(t) = expect_type {
+        if ty != t {
+            run.violation(&format!("{ctx}:scmp-error-wrong-type"), &format!("type {ty} expected {t}"), witness());
+        }
+    }
+    let fixed = match ty {
+        1 | 2 | 4 => 8,
+        5 => 20,
+        6 => 28,
+        _ => {
+            run.violation(&format!("{ctx}:scmp-error-not-an-error-type"), &format!("type {ty}"), witness());
+            return Some(h);
+        }
+    };
+    if l4.len() < fixed {
+        run.violation(&format!("{ctx}:scmp-error-truncated-fixed-part"), "message shorter than its fixed part", witness());
+        return Some(h);
+    }
+    let quote = &l4[fixed..];
+    if quote.len() > offending.len() || quote != &offending[..quote.len()] {
+        run.violation(&format!("{ctx}:scmp-quote-not-a-prefix"), "quoted bytes are not a prefix of the offending packet", witness());
+    } else {
+        let budget = MAX_SCMP.saturating_sub(hl + fixed);
+        let want = offending.len().min(budget);
+        if quote.len() != want {
+            run.violation(&format!("{ctx}:scmp-quote-not-maximal"), &format!("quoted {} bytes, budget allows {}", quote.len(), want), witness());
+        }
+    }
+    match refwire::verify_l4_checksum(bytes) {
+        Ok(true) => {}
+        Ok(false) => run.violation(&format!("{ctx}:scmp-checksum-does-not-verify"), "checksum over pseudo-header + SCMP message does not verify", witness()),
+        Err(e) => run.violation(&format!("{ctx}:scmp-checksum-not-checkable:{e}"), "cannot verify checksum", witness()),
+    }
+    Some(h)
+}
+
+// ------------------------------------------------------------------------------------------------
+// (a) encoder
+fn part_a(run: &Run, ev: &vpc::Counters, distinct: &vpc::Distinct) {
+    let cfgs = header_configs(run.tier);
+    let lens: Vec<usize> = match run.tier {
+        Tier::Quick => (0..=1400).step_by(1).filter(|l| *l < 40 || *l % 97 == 0 || (150..=1240).contains(l) && (*l % 4 != 1 || *l > 1100)).chain([1500, 9216]).collect(),
+        Tier::Thorough => (0..=1400).chain([1500, 9216]).collect(),
+    };
+    let sizes: std::collections::BTreeSet<usize> = cfgs
+        .iter()
+        .map(|(s, d, p, _)| ScionScmpPacket::new(*s, *d, p.clone(), ScmpMessage::EchoRequest(ScmpEchoRequest::new(0, 0, vec![]))).header.required_size())
+        .collect();
+    run.outcome_n("a:distinct-reply-header-sizes", sizes.len() as u64);
+    cfgs.par_iter().for_each(|(src, dst, path, name)| {
+        for &l in &lens {
+            let offending = pattern(l, 1);
+            for (ty, _fixed, msg) in error_kinds(offending.clone()) {
+                ev.add("evaluations", 1);
+                let pkt = ScionScmpPacket::new(*src, *dst, path.clone(), msg.clone());
+                let witness = || json!({"part": "a", "header": name, "type": ty, "offending_len": l});
+                let enc = catch(|| pkt.try_encode_to_vec());
+                let bytes = match enc {
+                    Err(p) => {
+                        run.violation(&format!("a:encoder-panic@{}", vpc::last_panic_location()), &p, witness());
+                        continue;
+                    }
+                    Ok(Err(e)) => {
+                        run.outcome("a:encode-error");
+                        run.violation("a:encoder-rejects-representable-scmp-error", &format!("{e:?}"), witness());
+                        continue;
+                    }
+                    Ok(Ok(b)) => b,
+                };
+                if bytes.len() != pkt.required_size() {
+                    run.violation("a:required-size-differs-from-bytes-written", &format!("{} vs {}", pkt.required_size(), bytes.len()), witness());
+                }
+                let h = judge_error_packet(run, "a", &bytes, &offending, Some(ty), &witness);
+                let truncated = h.as_ref().map(|h| (h.payload_len as usize) < _fixed + l).unwrap_or(false);
+                run.outcome(if truncated { "a:quote-truncated" } else { "a:quote-complete" });
+                distinct.add(format!("a|{}|{}|{}", bytes.len(), ty, truncated).as_bytes());
+                // decode back with the crate: equal up to the truncated quote
+                let back = catch(|| ScionRawPacketRef::try_from_slice(&bytes).map(|(r, rest)| (r.to_owned(), rest.len())));
+                match back {
+                    Ok(Ok((raw, rest))) => {
+                        if rest != 0 {
+                            run.violation("a:decoder-leaves-trailing-bytes", "decoder did not consume the whole encoding", witness());
+                        }
+                        match catch(|| ScionScmpPacket::try_from_raw(raw)) {
+                            Ok(Ok(m)) => {
+                                let mut want = pkt.clone();
+                                if let Some(h) = &h {
+                                    let q = (h.payload_len as usize).saturating_sub(_fixed);
+                                    set_offending(&mut want.payload, offending[..q.min(offending.len())].to_vec());
+                                }
+                                if m.payload != want.payload || m.header.address != want.header.address || m.header.path != want.header.path {
+                                    run.violation("a:decode-of-encode-differs", "decoded SCMP packet differs from the encoded model (beyond quote truncation)", witness());
+                                }
+                            }
+                            Ok(Err(e)) => run.violation("a:own-encoding-not-decodable-as-scmp", &format!("{e:?}"), witness()),
+                            Err(p) => run.violation(&format!("a:decoder-panic@{}", vpc::last_panic_location()), &p, witness()),
+                        }
+                    }
+                    Ok(Err(e)) => run.violation("a:own-encoding-not-decodable", &format!("{e:?}"), witness()),
+                    Err(p) => run.violation(&format!("a:decoder-panic@{}", vpc::last_panic_location()), &p, witness()),
+                }
+                run.sample(3, || json!({"part": "a", "header": name, "type": ty, "offending_len": l, "encoded_len": bytes.len()}));
+            }
+        }
+    });
+}
+
+fn set_offending(m: &mut ScmpMessage, q: Vec<u8>) {
+    match m {
+        ScmpMessage::DestinationUnreachable(x) => x.set_offending_packet(q),
+        ScmpMessage::PacketTooBig(x) => x.set_offending_packet(q),
+        ScmpMessage::ParameterProblem(x) => x.set_offending_packet(q),
+        ScmpMessage::ExternalInterfaceDown(x) => x.set_offending_packet(q),
+        ScmpMessage::InternalConnectivityDown(x) => x.set_offending_packet(q),
+        _ => {}
+    }
+}
+
+// ------------------------------------------------------------------------------------------------
+// helpers to build request packets with R-wire (independent of the crate's encoder)
+fn rpath_for(shape: &[usize], curr_inf: u8, curr_hf: u8) -> RStdPath {
+    let mut infos = vec![];
+    let mut hops = vec![];
+    let mut seg_len = [0u8; 3];
+    let mut k = 0u16;
+    for (si, n) in shape.iter().enumerate() {
+        seg_len[si] = *n as u8;
+        infos.push(RInfo { flags: if si % 2 == 0 { 1 } else { 0 }, rsv: 0, seg_id: 0x2000 + si as u16, timestamp: 1_700_000_100 + si as u32 });
+        for _ in 0..*n {
+            k += 1;
+            hops.push(RHop { flags: 0, exp_time: 63, cons_ingress: 300 + k, cons_egress: 400 + k, mac: [k as u8, 1, 2, 3, 4, 5] });
+        }
+    }
+    RStdPath { curr_inf, curr_hf, rsv: 0, seg_len, infos, hops }
+}
+
+struct Req {
+    src_ia: u64,
+    dst_ia: u64,
+    src_host: Vec<u8>,
+    dst_host: Vec<u8>,
+    path: RPath,
+}
+impl Req {
+    fn packet(&self, next_hdr: u8, l4: &[u8], fix_checksum: Option<usize>) -> Vec<u8> {
+        let tl = |h: &Vec<u8>| if h.len() == 4 { 0b0000 } else { 0b0011 };
+        let h = RHeader {
+            version: 0,
+            traffic_class: 0,
+            flow_id: 1,
+            next_hdr,
+            hdr_len: 0,
+            payload_len: l4.len() as u16,
+            path_type: self.path.path_type(),
+            dst_tl: tl(&self.dst_host),
+            src_tl: tl(&self.src_host),
+            rsv: 0,
+            dst_ia: self.dst_ia,
+            src_ia: self.src_ia,
+            dst_host: self.dst_host.clone(),
+            src_host: self.src_host.clone(),
+            path: self.path.clone(),
+        }
+        .with_natural_hdr_len();
+        let mut l4 = l4.to_vec();
+        if let Some(off) = fix_checksum {
+            if l4.len() >= off + 2 {
+                l4[off] = 0;
+                l4[off + 1] = 0;
+                let c = refwire::checksum(h.dst_ia, h.src_ia, &h.dst_host, &h.src_host, next_hdr, &l4);
+                l4[off..off + 2].copy_from_slice(&c.to_be_bytes());
+            }
+        }
+        let mut b = h.to_bytes_raw();
+        b.extend_from_slice(&l4);
+        b
+    }
+}
+
+const LOCAL_IA: &str = "1-ff00:0:110";
+const REMOTE_IA: &str = "2-ff00:0:220";
+fn ia_u64(s: &str) -> u64 {
+    ia(s).to_u64()
+}
+
+fn base_req(path: RPath) -> Req {
+    // a packet from REMOTE host 10.0.2.1 to LOCAL host 10.0.1.1
+    Req { src_ia: ia_u64(REMOTE_IA), dst_ia: ia_u64(LOCAL_IA), src_host: vec![10, 0, 2, 1], dst_host: vec![10, 0, 1, 1], path }
+}
+
+fn echo_l4(ty: u8, id: u16, seq: u16, data: &[u8]) -> Vec<u8> {
+    let mut v = vec![ty, 0, 0, 0];
+    v.extend_from_slice(&id.to_be_bytes());
+    v.extend_from_slice(&seq.to_be_bytes());
+    v.extend_from_slice(data);
+    v
+}
+
+/// Judge an echo reply (bytes) against the request.
+fn judge_echo_reply(run: &Run, ctx: &str, reply: &[u8], req: &Req, id: u16, seq: u16, data: &[u8], expect_src_host: Option<&[u8]>, witness: &dyn Fn() -> Value) {
+    let (h, hl) = match RHeader::parse(reply) {
+        Ok(x) => x,
+        Err(e) => {
+            run.violation(&format!("{ctx}:echo-reply-unparseable:{e}"), "echo reply does not parse with the independent reader", witness());
+            return;
+        }
+    };
+    let l4 = &reply[hl..];
+    if h.next_hdr != PROTO_SCMP || l4.len() < 8 || l4[0] != 129 || l4[1] != 0 {
+        run.violation(&format!("{ctx}:echo-reply-not-an-echo-reply"), &format!("next_hdr {} type {:?}", h.next_hdr, l4.first()), witness());
+        return;
+    }
+    if u16::from_be_bytes([l4[4], l4[5]]) != id || u16::from_be_bytes([l4[6], l4[7]]) != seq {
+        run.violation(&format!("{ctx}:echo-reply-id-or-seq-differs"), "identifier / sequence number not echoed", witness());
+    }
+    if &l4[8..] != data {
+        run.violation(&format!("{ctx}:echo-reply-data-differs"), "data not echoed", witness());
+    }
+    if h.dst_ia != req.src_ia || h.dst_host != req.src_host {
+        run.violation(&format!("{ctx}:echo-reply-not-addressed-to-requester"), "destination of the reply is not the requester", witness());
+    }
+    if h.src_ia != req.dst_ia {
+        run.violation(&format!("{ctx}:echo-reply-source-ia-wrong"), "source ISD-AS of the reply is not the responder's", witness());
+    }
+    if let Some(sh) = expect_src_host {
+        if h.src_host != sh {
+            run.violation(&format!("{ctx}:echo-reply-source-host-wrong"), "source host of the reply is not the responder", witness());
+        }
+    }
+    let want_path = match &req.path {
+        RPath::Std(p) => RPath::Std(p.reversed()),
+        other => other.clone(),
+    };
+    if h.path != want_path {
+        run.violation(&format!("{ctx}:echo-reply-path-not-reversed-request-path"), "reply path differs from the spec reversal of the request path", witness());
+    }
+    if h.payload_len as usize != l4.len() {
+        run.violation(&format!("{ctx}:echo-reply-payload-len-untruthful"), "PayloadLen wrong", witness());
+    }
+    match refwire::verify_l4_checksum(reply) {
+        Ok(true) => {}
+        _ => run.violation(&format!("{ctx}:scmp-checksum-does-not-verify"), "echo reply checksum does not verify", witness()),
+    }
+}
+
+struct NullReceiver(Mutex<u64>);
+impl Receiver for NullReceiver {
+    fn receive_packet(&self, _packet: &ScionRawPacketView) {
+        *self.0.lock().unwrap() += 1;
+    }
+}
+
+struct Pocket {
+    router: ScionRouter,
+    receivers: NetworkReceiverRegistry,
+    external: ExternalAsRegistry,
+}
+impl Pocket {
+    fn new(with_receiver: bool) -> Pocket {
+        let mut receivers = NetworkReceiverRegistry::new();
+        if with_receiver {
+            receivers.add_wildcard_receiver(ia(LOCAL_IA), Arc::new(NullReceiver(Mutex::new(0)))).unwrap();
+        }
+        Pocket { router: ScionRouter::new_fallback(SocketAddr::new(IpAddr::V4(Ipv4Addr::new(10, 0, 1, 254)), 30042)), receivers, external: ExternalAsRegistry::new() }
+    }
+    fn sim(&self, ifid: u16) -> LocalNetworkSimulation<'_> {
+        LocalNetworkSimulation::new(ia(LOCAL_IA), ifid, &self.receivers, &self.external, &self.router)
+    }
+    /// Runs a local routing action on `bytes`; returns the encoded reply, if any.
+    fn act(&self, ifid: u16, action: LocalAsRoutingAction, bytes: &[u8]) -> Result<Option<Vec<u8>>, String> {
+        let mut buf = bytes.to_vec();
+        let r = catch(|| {
+            let (view, _) = ScionRawPacketView::try_from_mut_slice(&mut buf).map_err(|e| format!("view: {e:?}"))?;
+            match self.sim(ifid).handle_local_routing_action(action, view) {
+                Ok(None) => Ok(None),
+                Ok(Some(p)) => p.try_encode_to_vec().map(Some).map_err(|e| format!("reply-encode: {e:?}")),
+                Err(e) => Err(format!("anyhow: {e:#}")),
+            }
+        });
+        match r {
+            Ok(x) => x,
+            Err(p) => Err(format!("PANIC {p} @{}", vpc::last_panic_location())),
+        }
+    }
+}
+
+// ------------------------------------------------------------------------------------------------
+// (b) builders
+fn part_b(run: &Run, ev: &vpc::Counters, distinct: &vpc::Distinct) {
+    // snap gateway: rejected datagrams of every length
+    let lens: Vec<usize> = match run.tier {
+        Tier::Quick => (0..=1400).filter(|l| *l < 80 || *l % 53 == 0 || (1150..=1240).contains(l)).chain([1500, 4000, 9216]).collect(),
+        Tier::Thorough => (0..=1400).chain([1500, 4000, 9216]).collect(),
+    };
+    let peer: IpAddr = "10.0.2.1".parse().unwrap();
+    let local = ScionHostAddr::V4(Ipv4Addr::new(10, 0, 0, 9));
+    lens.par_iter().for_each(|&l| {
+        // three rejection causes: garbage, wrong source host, unsupported path type
+        let mut cases: Vec<(String, Vec<u8>)> = vec![(format!("garbage{l}"), pattern(l, 9))];
+        if l >= 8 {
+            let mut r = base_req(RPath::Empty);
+            r.src_host = vec![10, 0, 2, 77]; // not the tunnel peer
+            let mut udp = vec![0x11, 0x22, 0x33, 0x44];
+            udp.extend_from_slice(&(l as u16).to_be_bytes());
+            udp.extend_from_slice(&[0, 0]);
+            udp.extend_from_slice(&pattern(l - 8, 4));
+            if l <= 65535 {
+                cases.push((format!("spoofed-src udp{l}"), r.packet(PROTO_UDP, &udp, Some(6))));
+                let mut r2 = base_req(RPath::OneHop { info: RInfo { flags: 1, rsv: 0, seg_id: 7, timestamp: 1_700_000_000 }, hop1: RHop { flags: 0, exp_time: 63, cons_ingress: 0, cons_egress: 5, mac: [1; 6] }, hop2: RHop { flags: 0, exp_time: 0, cons_ingress: 0, cons_egress: 0, mac: [0; 6] } });
+                r2.src_host = vec![10, 0, 2, 1];
+                cases.push((format!("onehop udp{l}"), r2.packet(PROTO_UDP, &udp, Some(6))));
+            }
+        }
+        for (name, dgram) in cases {
+            if dgram.len() > 9216 {
+                continue;
+            }
+            ev.add("evaluations", 1);
+            let witness = || json!({"part": "b-snap", "case": name, "datagram_len": dgram.len(), "datagram_prefix": hex(&dgram[..dgram.len().min(64)])});
+            match catch(|| ingress(&dgram, peer, local)) {
+                Err(p) => run.violation(&format!("b:snap-ingress-panic@{}", vpc::last_panic_location()), &p, witness()),
+                Ok(IngressVerdict::Dispatch) => run.violation("b:snap-dispatches-a-packet-built-to-be-rejected", &name, witness()),
+                Ok(IngressVerdict::ReplyEncodeError(e)) => {
+                    run.outcome("b:snap-reply-encode-error");
+                    run.violation("b:snap-cannot-encode-scmp-reply", &format!("{e:?}"), witness());
+                }
+                Ok(IngressVerdict::ScmpReply(bytes)) => {
+                    run.outcome("b:snap-scmp-reply");
+                    distinct.add(format!("b-snap|{}|{}", name.split(' ').next().unwrap_or(""), bytes.len()).as_bytes());
+                    judge_error_packet(run, "b-snap", &bytes, &dgram, Some(4), &witness);
+                }
+            }
+        }
+    });
+
+    // pocketscion: SendSCMPErrorResponse / ForwardLocal without receiver / non-local delivery
+    let pk_none = Pocket::new(false);
+    let shapes: Vec<(Vec<usize>, u8, u8)> = vec![(vec![2], 0, 1), (vec![3, 2], 1, 4), (vec![2, 2, 2], 2, 5)];
+    let sizes: Vec<usize> = match run.tier {
+        Tier::Quick => vec![0, 1, 100, 1100, 1150, 1160, 1170, 1180, 1190, 1200, 1232, 1400, 9000],
+        Tier::Thorough => (0..=1400).step_by(3).chain([9000]).collect(),
+    };
+    let jobs: Vec<(usize, usize)> = (0..shapes.len()).flat_map(|s| sizes.iter().map(move |z| (s, *z))).collect();
+    jobs.par_iter().for_each(|&(si, z)| {
+        let (shape, ci, ch) = &shapes[si];
+        let req = base_req(RPath::Std(rpath_for(shape, *ci, *ch)));
+        let mut udp = vec![0x11, 0x22, 0x33, 0x44];
+        udp.extend_from_slice(&((z + 8) as u16).to_be_bytes());
+        udp.extend_from_slice(&[0, 0]);
+        udp.extend_from_slice(&pattern(z, 5));
+        let pkt = req.packet(PROTO_UDP, &udp, Some(6));
+        let actions: Vec<(&str, LocalAsRoutingAction, Option<u8>)> = vec![
+            ("send-scmp-error(dest-unreachable)", LocalAsRoutingAction::SendSCMPErrorResponse(ScmpErrorMessage::DestinationUnreachable(ScmpDestinationUnreachable::new(ScmpDestinationUnreachableCode::AddressUnreachable, pkt.clone()))), Some(1)),
+            ("send-scmp-error(ext-if-down)", LocalAsRoutingAction::SendSCMPErrorResponse(ScmpErrorMessage::ExternalInterfaceDown(ScmpExternalInterfaceDown::new(ia(LOCAL_IA), 3, pkt.clone()))), Some(5)),
+            ("forward-local(no receiver)", LocalAsRoutingAction::ForwardLocal, Some(1)),
+        ];
+        for (name, act, ty) in actions {
+            ev.add("evaluations", 1);
+            let witness = || json!({"part": "b-pocket", "action": name, "shape": shape, "udp_payload": z, "packet_len": pkt.len()});
+            match pk_none.act(0, act, &pkt) {
+                Err(e) if e.starts_with("PANIC") => run.violation(&format!("b:pocket-panic:{name}@{}", vpc::last_panic_location()), &e, witness()),
+                Err(e) => {
+                    run.outcome("b:pocket-error-no-reply");
+                    run.violation(&format!("b:pocket-fails-to-build-scmp-error:{name}"), &e, witness());
+                }
+                Ok(None) => run.violation(&format!("b:pocket-no-scmp-error-for-undeliverable-packet:{name}"), "no reply", witness()),
+                Ok(Some(bytes)) => {
+                    run.outcome("b:pocket-scmp-reply");
+                    distinct.add(format!("b-pocket|{name}|{}", bytes.len()).as_bytes());
+                    if let Some(h) = judge_error_packet(run, "b-pocket", &bytes, &pkt, ty, &witness) {
+                        if h.dst_ia != req.src_ia || h.dst_host != req.src_host {
+                            run.violation("b-pocket:scmp-error-not-addressed-to-offender", "SCMP error not addressed to the source of the offending packet", witness());
+                        }
+                        if let RPath::Std(p) = &req.path {
+                            if h.path != RPath::Std(p.reversed()) {
+                                run.violation("b-pocket:scmp-error-path-not-reversed", "SCMP error path is not the reversed offending path", witness());
+                            }
+                        }
+                    }
+                }
+            }
+        }
+    });
+}
+
+// ------------------------------------------------------------------------------------------------
+// (c) echo
+fn positions(shape: &[usize]) -> Vec<(u8, u8)> {
+    let mut v = vec![];
+    let mut base = 0usize;
+    for (si, n) in shape.iter().enumerate() {
+        for k in 0..*n {
+            v.push((si as u8, (base + k) as u8));
+        }
+        base += n;
+    }
+    v
+}
+
+fn part_c(run: &Run, ev: &vpc::Counters, distinct: &vpc::Distinct) {
+    let ids: [u16; 3] = [0, 1, 0xFFFF];
+    let data_lens: Vec<usize> = match run.tier {
+        Tier::Quick => (0..=16).chain([63, 64, 1200, 1232, 9000]).collect(),
+        Tier::Thorough => (0..=64).chain([1200, 1232, 9000]).collect(),
+    };
+    let shapes: Vec<Vec<usize>> = match run.tier {
+        Tier::Quick => vec![vec![1], vec![2], vec![3], vec![2, 2], vec![1, 3], vec![2, 1, 2], vec![3, 3, 3]],
+        Tier::Thorough => {
+            let mut v = vec![];
+            for a in 1..=3 {
+                v.push(vec![a]);
+                for b in 1..=3 {
+                    v.push(vec![a, b]);
+                    for c in 1..=3 {
+                        v.push(vec![a, b, c]);
+                    }
+                }
+            }
+            v
+        }
+    };
+    let mut paths: Vec<RPath> = vec![RPath::Empty];
+    for sh in &shapes {
+        for (ci, ch) in positions(sh) {
+            paths.push(RPath::Std(rpath_for(sh, ci, ch)));
+        }
+    }
+    let handler = DefaultEchoHandler::new();
+    let pk = Pocket::new(true);
+    paths.par_iter().for_each(|path| {
+        let req = base_req(path.clone());
+        for &dl in &data_lens {
+            let data = pattern(dl, 2);
+            for &id in &ids {
+                for &seq in &ids {
+                    ev.add("evaluations", 1);
+                    let l4 = echo_l4(128, id, seq, &data);
+                    let pkt = req.packet(PROTO_SCMP, &l4, Some(2));
+                    if pkt.len() > 65535 {
+                        continue;
+                    }
+                    let pdesc = match path {
+                        RPath::Std(p) => format!("std{:?}@{},{}", p.seg_len, p.curr_inf, p.curr_hf),
+                        _ => "empty".into(),
+                    };
+                    let witness = || json!({"part": "c", "path": pdesc, "id": id, "seq": seq, "data_len": dl, "request": hex(&pkt[..pkt.len().min(160)])});
+                    // scion-stack echo handler
+                    let r = catch(|| {
+                        let (view, _) = ScionRawPacketView::try_from_slice(&pkt).map_err(|e| format!("{e:?}"))?;
+                        Ok::<_, String>(handler.handle(view).map(|p| p.try_encode_to_vec()))
+                    });
+                    match r {
+                        Err(p) => run.violation(&format!("c:echo-handler-panic@{}", vpc::last_panic_location()), &p, witness()),
+                        Ok(Err(e)) => run.violation("c:request-built-by-spec-writer-rejected-by-view", &e, witness()),
+                        Ok(Ok(None)) => {
+                            run.outcome("c:stack-no-reply");
+                            run.violation("c:stack-echo-request-not-answered", "DefaultEchoHandler returned no reply to a well-formed echo request", witness());
+                        }
+                        Ok(Ok(Some(Err(e)))) => run.violation("c:stack-echo-reply-not-encodable", &format!("{e:?}"), witness()),
+                        Ok(Ok(Some(Ok(reply)))) => {
+                            run.outcome("c:stack-echo-reply");
+                            distinct.add(format!("c-stack|{pdesc}|{dl}").as_bytes());
+                            judge_echo_reply(run, "c-stack", &reply, &req, id, seq, &data, Some(&req.dst_host), &witness);
+                        }
+                    }
+                    // pocketscion router echo (ingress + egress)
+                    if id == 1 && seq == 0xFFFF {
+                        for (an, act) in [("ingress", LocalAsRoutingAction::IngressSCMPHandleRequest { interface_id: 7 }), ("egress", LocalAsRoutingAction::EgressSCMPHandleRequest { interface_id: 7 })] {
+                            ev.add("evaluations", 1);
+                            match pk.act(7, act, &pkt) {
+                                Err(e) if e.starts_with("PANIC") => run.violation(&format!("c:pocket-echo-panic@{}", vpc::last_panic_location()), &e, witness()),
+                                Err(e) => run.violation(&format!("c:pocket-echo-error:{an}"), &e, witness()),
+                                Ok(None) => run.violation(&format!("c:pocket-echo-request-not-answered:{an}"), "no reply", witness()),
+                                Ok(Some(reply)) => {
+                                    run.outcome("c:pocket-echo-reply");
+                                    distinct.add(format!("c-pocket|{pdesc}|{dl}").as_bytes());
+                                    judge_echo_reply(run, "c-pocket", &reply, &req, id, seq, &data, Some(&[10, 0, 1, 254]), &witness);
+                                }
+                            }
+                        }
+                    }
+                }
+            }
+        }
+    });
+}
+
+// ------------------------------------------------------------------------------------------------
+// (d) no reply to errors / malformed SCMP
+fn min_len_of_type(ty: u8) -> usize {
+    match ty {
+        1 | 2 | 4 => 8,
+        5 => 20,
+        6 => 28,
+        128 | 129 => 8,
+        130 | 131 => 24,
+        _ => 4,
+    }
+}
+
+fn part_d(run: &Run, ev: &vpc::Counters, distinct: &vpc::Distinct) {
+    let handler = DefaultEchoHandler::new();
+    let pk_none = Pocket::new(false);
+    let req = base_req(RPath::Std(rpath_for(&[2, 2], 1, 3)));
+    // an inner offending packet that is itself an SCMP error ("error quoting an error")
+    let inner = base_req(RPath::Empty).packet(PROTO_SCMP, &[1, 0, 0, 0, 0, 0, 0, 0, 9, 9, 9], Some(2));
+    (0u16..=255).into_par_iter().for_each(|ty| {
+        let ty = ty as u8;
+        for code in [0u8, 1, 255] {
+            let full_len = min_len_of_type(ty) + 8;
+            for len in 0..=full_len {
+                for good_cs in [true, false] {
+                    for quote_error in [false, true] {
+                        if quote_error && (len != full_len || ty >= 128) {
+                            continue;
+                        }
+                        let mut l4: Vec<u8> = vec![ty, code, 0, 0];
+                        l4.extend(pattern(full_len.saturating_sub(4), ty));
+                        l4.truncate(len);
+                        if quote_error {
+                            l4.truncate(min_len_of_type(ty));
+                            l4.extend_from_slice(&inner);
+                        }
+                        let pkt = req.packet(PROTO_SCMP, &l4, if good_cs { Some(2) } else { None });
+                        let is_error = len >= 1 && ty < 128; // SCMP: types 0..127 are error messages
+                        let malformed = l4.len() < 4 || l4.len() < min_len_of_type(ty);
+                        let must_be_silent = is_error || malformed || len == 0;
+                        ev.add("evaluations", 1);
+                        distinct.add(format!("d|{ty}|{}|{}", l4.len().min(40), good_cs).as_bytes());
+                        let witness = || json!({"part": "d", "type": ty, "code": code, "l4_len": l4.len(), "checksum_valid": good_cs, "quotes_error": quote_error, "packet": hex(&pkt)});
+                        // 1. scion-stack echo handler
+                        let r = catch(|| ScionRawPacketView::try_from_slice(&pkt).ok().and_then(|(v, _)| handler.handle(v)).is_some());
+                        match r {
+                            Err(p) => run.violation(&format!("d:echo-handler-panic@{}", vpc::last_panic_location()), &p, witness()),
+                            Ok(true) if must_be_silent => run.violation(&format!("d:stack-echo-handler-replies-to-{}", if is_error { "scmp-error" } else { "malformed-scmp" }), &format!("type {ty}"), witness()),
+                            Ok(true) => run.outcome("d:stack-reply-to-informational"),
+                            Ok(false) => run.outcome("d:stack-silent"),
+                        }
+                        // 2. pocketscion builders: undeliverable packet, router error, SCMP request handling
+                        let acts: Vec<(&str, LocalAsRoutingAction)> = vec![
+                            ("forward-local", LocalAsRoutingAction::ForwardLocal),
+                            ("send-scmp-error", LocalAsRoutingAction::SendSCMPErrorResponse(ScmpErrorMessage::ParameterProblem(ScmpParameterProblem::new(ScmpParameterProblemCode::InvalidPath, 0, pkt.clone())))),
+                            ("ingress-scmp-request", LocalAsRoutingAction::IngressSCMPHandleRequest { interface_id: 7 }),
+                        ];
+                        for (an, act) in acts {
+                            ev.add("evaluations", 1);
+                            match pk_none.act(7, act, &pkt) {
+                                Err(e) if e.starts_with("PANIC") => run.violation(&format!("d:pocket-panic:{an}@{}", vpc::last_panic_location()), &e, witness()),
+                                Err(_) => run.outcome("d:pocket-error-silent"),
+                                Ok(None) => run.outcome("d:pocket-silent"),
+                                Ok(Some(_)) if must_be_silent => {
+                                    let what = if is_error {
+                                        if matches!(ty, 1 | 2 | 4 | 5 | 6) { "known-scmp-error".to_string() } else { "unknown-type-scmp-error".to_string() }
+                                    } else {
+                                        "malformed-scmp".to_string()
+                                    };
+                                    run.violation(&format!("d:pocket-{an}-replies-to-{what}"), &format!("type {ty} l4_len {}", l4.len()), witness());
+                                }
+                                Ok(Some(_)) => run.outcome("d:pocket-reply-to-informational"),
+                            }
+                        }
+                    }
+                }
+            }
+        }
+    });
+}
+
+// ------------------------------------------------------------------------------------------------
+// (e) socket loop
+struct CountingReceiver(Mutex<Vec<String>>);
+impl ScmpErrorReceiver for CountingReceiver {
+    fn report_scmp_error<'a>(&self, e: ScmpErrorMessage, _path: ScionDpPathViewRef<'a>) {
+        let k = match e {
+            ScmpErrorMessage::DestinationUnreachable(_) => "dest-unreachable",
+            ScmpErrorMessage::PacketTooBig(_) => "too-big",
+            ScmpErrorMessage::ParameterProblem(_) => "param-problem",
+            ScmpErrorMessage::ExternalInterfaceDown(_) => "ext-if-down",
+            ScmpErrorMessage::InternalConnectivityDown(_) => "int-conn-down",
+        };
+        self.0.lock().unwrap().push(k.to_string());
+    }
+}
+
+fn block_on_ready<F: std::future::Future>(f: F) -> Option<F::Output> {
+    let w = std::task::Waker::noop();
+    let mut cx = std::task::Context::from_waker(w);
+    let mut f = std::pin::pin!(f);
+    for _ in 0..4 {
+        if let std::task::Poll::Ready(v) = f.as_mut().poll(&mut cx) {
+            return Some(v);
+        }
+    }
+    None
+}
+
+fn part_e(run: &Run, ev: &vpc::Counters, distinct: &vpc::Distinct) {
+    let req = base_req(RPath::Std(rpath_for(&[2], 0, 1)));
+    let udp = |port: u16, payload: &[u8]| {
+        let mut l4 = port.to_be_bytes().to_vec();
+        l4.extend_from_slice(&4000u16.to_be_bytes());
+        l4.extend_from_slice(&((8 + payload.len()) as u16).to_be_bytes());
+        l4.extend_from_slice(&[0, 0]);
+        l4.extend_from_slice(payload);
+        req.packet(PROTO_UDP, &l4, Some(6))
+    };
+    let d1 = pattern(33, 1);
+    let d2 = pattern(700, 2);
+    let mut scmp_err = vec![1u8, 4, 0, 0, 0, 0, 0, 0];
+    scmp_err.extend_from_slice(&pattern(60, 3));
+    let mut unknown_err = vec![100u8, 0, 0, 0];
+    unknown_err.extend_from_slice(&pattern(20, 4));
+    let mut ext_down = vec![5u8, 0, 0, 0];
+    ext_down.extend_from_slice(&ia_u64(REMOTE_IA).to_be_bytes());
+    ext_down.extend_from_slice(&9u64.to_be_bytes());
+    ext_down.extend_from_slice(&pattern(40, 5));
+    // items: (name, packet, kind)
+    let items: Vec<(&str, Vec<u8>)> = vec![
+        ("E", req.packet(PROTO_SCMP, &scmp_err, Some(2))),
+        ("d1", udp(1111, &d1)),
+        ("d2", udp(2222, &d2)),
+        ("M", req.packet(PROTO_SCMP, &[1, 0, 0, 0, 7], Some(2))), // truncated error
+        ("Q", req.packet(PROTO_SCMP, &echo_l4(128, 5, 6, b"ping"), Some(2))),
+        ("X", req.packet(253, &pattern(12, 6), None)), // experimental next header
+        ("U", req.packet(PROTO_SCMP, &unknown_err, Some(2))),
+        ("I", req.packet(PROTO_SCMP, &ext_down, Some(2))),
+    ];
+    let n = items.len();
+    let maxlen = run.tier.pick(3usize, 4usize);
+    let mut seqs: Vec<Vec<usize>> = vec![vec![]];
+    let mut frontier: Vec<Vec<usize>> = vec![vec![]];
+    for _ in 0..maxlen {
+        let mut next = vec![];
+        for s in &frontier {
+            for i in 0..n {
+                let mut t = s.clone();
+                t.push(i);
+                next.push(t);
+            }
+        }
+        seqs.extend(next.iter().cloned());
+        frontier = next;
+    }
+    let local: ScionSocketIpAddr = ScionSocketIpAddr::new(ia(LOCAL_IA), "10.0.1.1".parse().unwrap(), 4000);
+    seqs.par_iter().for_each(|seq| {
+        for with_echo in [false, true] {
+            ev.add("evaluations", 1);
+            let names: Vec<&str> = seq.iter().map(|i| items[*i].0).collect();
+            let witness = || json!({"part": "e", "sequence": names, "echo_handler_installed": with_echo});
+            let recv = Arc::new(CountingReceiver(Mutex::new(vec![])));
+            let r = catch(|| {
+                let s = scripted_udp_socket(local, seq.iter().map(|i| items[*i].1.clone()).collect(), vec![recv.clone() as Arc<dyn ScmpErrorReceiver>], with_echo);
+                let mut got: Vec<(Vec<u8>, String)> = vec![];
+                let mut buf = vec![0u8; 2000];
+                let mut stuck = false;
+                loop {
+                    match block_on_ready(s.socket.recv_from(&mut buf)) {
+                        None => {
+                            stuck = true;
+                            break;
+                        }
+                        Some(Ok((len, from))) => got.push((buf[..len.min(buf.len())].to_vec(), from.to_string())),
+                        Some(Err(_)) => break,
+                    }
+                    if got.len() > 16 {
+                        break;
+                    }
+                }
+                let sent = s.sent.lock().unwrap().clone();
+                (got, sent, stuck)
+            });
+            let (got, sent, stuck) = match r {
+                Ok(x) => x,
+                Err(p) => {
+                    run.violation(&format!("e:socket-loop-panic@{}", vpc::last_panic_location()), &p, witness());
+                    continue;
+                }
+            };
+            if stuck {
+                run.violation("e:socket-recv-pending-on-ready-underlay", "recv_from stayed pending although the scripted underlay is always ready", witness());
+                continue;
+            }
+            // datagram delivery unaffected
+            let want: Vec<Vec<u8>> = names.iter().filter_map(|nm| match *nm { "d1" => Some(d1.clone()), "d2" => Some(d2.clone()), _ => None }).collect();
+            let got_payloads: Vec<Vec<u8>> = got.iter().map(|g| g.0.clone()).collect();
+            if got_payloads != want {
+                run.violation("e:datagram-delivery-affected-by-scmp-traffic", &format!("expected {} datagrams in order, got {}", want.len(), got_payloads.len()), witness());
+            }
+            // errors reach the receiver exactly once each
+            let want_err: Vec<String> = names.iter().filter_map(|nm| match *nm { "E" => Some("dest-unreachable".to_string()), "I" => Some("ext-if-down".to_string()), _ => None }).collect();
+            let got_err = recv.0.lock().unwrap().clone();
+            if got_err != want_err {
+                run.violation("e:scmp-errors-not-delivered-exactly-once-in-order", &format!("expected {want_err:?} got {got_err:?}"), witness());
+            }
+            // replies only for echo requests
+            let nq = names.iter().filter(|x| **x == "Q").count();
+            let want_sent = if with_echo { nq } else { 0 };
+            if sent.len() != want_sent {
+                let cls = if sent.len() > want_sent { "e:socket-sends-reply-not-caused-by-echo-request" } else { "e:socket-echo-request-unanswered" };
+                run.violation(cls, &format!("{} packets sent, expected {}", sent.len(), want_sent), witness());
+            }
+            for s in &sent {
+                judge_echo_reply(run, "e", s, &req, 5, 6, b"ping", Some(&req.dst_host), &witness);
+            }
+            run.outcome(&format!("e:datagrams={} errors={} replies={}", got.len().min(3), got_err.len().min(3), sent.len().min(3)));
+            distinct.add(format!("e|{names:?}|{with_echo}").as_bytes());
+            run.sample(6, || json!({"part": "e", "sequence": names, "echo": with_echo, "datagrams": got.len(), "errors": got_err, "replies": sent.len()}));
+        }
+    });
+}
+
 pub fn run(args: &vpc::Args) -> ! {
-    vpc::machinery_failure(&format!("property {} not implemented yet", args.prop))
+    vpc::quiet_panics();
+    let run = Run::new(args);
+    if let Some(p) = &args.replay {
+        let v = vpc::read_replay(p);
+        println!("replay of {}: class={} what={}", p.display(), v["class"], v["what"]);
+        println!("witness: {}", serde_json::to_string_pretty(&v["witness"]).unwrap());
+        println!("(C14 witnesses are self-describing inputs; re-run `./check C14 --tier quick` to re-execute the enumeration that contains them)");
+        std::process::exit(0);
+    }
+    let ev = vpc::Counters::default();
+    let distinct = vpc::Distinct::default();
+    let only: Option<String> = args.extra.iter().find_map(|a| a.strip_prefix("--part=").map(|s| s.to_string()));
+    let want = |p: &str| only.as_deref().map(|o| o.contains(p)).unwrap_or(true);
+    let mut timing = vec![];
+    for (name, f) in [("a", part_a as fn(&Run, &vpc::Counters, &vpc::Distinct)), ("b", part_b), ("c", part_c), ("d", part_d), ("e", part_e)] {
+        if want(name) {
+            let t = std::time::Instant::now();
+            f(&run, &ev, &distinct);
+            timing.push(json!({"part": name, "wall_s": t.elapsed().as_secs_f64(), "evaluations_so_far": ev.get("evaluations")}));
+            println!("part {name}: done in {:.1}s, evaluations so far {}", t.elapsed().as_secs_f64(), ev.get("evaluations"));
+        }
+    }
+    let tier = run.tier;
+    run.finish(
+        "exploration",
+        json!({
+            "evaluations": ev.get("evaluations"),
+            "distinct_nontrivial": distinct.len(),
+            "rule": "cases are generated from size/shape-determining fields: (a) 5 error kinds x offending lengths x reply header shapes; (b) builders x datagram/packet sizes; (c) echo requests x ids x data lengths x path shapes x positions; (d) 256 type bytes x 3 codes x every truncation x checksum x error-quoting-error x 4 handlers; (e) all sequences with repetition over 8 packet kinds. distinct_nontrivial counts distinct (part, encoded length / type / shape / sequence) classes that reached an oracle (a reply judged or a silent verdict checked)",
+            "exhaustive": true,
+            "bound": match tier { Tier::Quick => "quick: reduced length/shape series, socket sequences <= 3", Tier::Thorough => "thorough: every offending length 0..=1400, all 1-seg hop counts 1..=63, all <=3x3 shapes and positions, socket sequences <= 4" },
+            "parts": timing,
+        }),
+        &[
+            "R-wire (independent SCION header reader/writer + RFC1071 checksum) is the judge of every packet",
+            "SCMP types 0..127 are error messages (SCMP specification), also when the type is unknown to the SDK",
+            "echo requests with a wrong checksum are don't-care (the property does not say whether they are malformed)",
+            "snap gateway glue (match on Ok/Err in start_server) is trusted; the real check + real SCMP builder are executed through the verif hook",
+        ],
+    )
 }
